@@ -203,8 +203,89 @@ func Acquire(x interface{}) {
 // ordered: a happens before b through a chain of hand-overs
 func ordered(a, b accessRec) bool { return b.hb[a.task] > a.epoch }
 
+// Cooperative mutexes. Transformed code calls AwaitLock(&mu, "Lock"|"RLock") BEFORE the real
+// mu.Lock()/RLock(), Lock(&mu) after it and Unlock(&mu) before the real unlock. Under the
+// scheduler exactly one task runs at a time, so a task that finds the mutex taken (its holder
+// was pre-empted inside the critical section) must wait INSIDE the simulator: blocking in the
+// real Lock would put every goroutine of the process to sleep. The holders table lives in the
+// world, whether or not access tracking is on.
+type lockOwners struct {
+	writer  map[uintptr]int         // mutex -> task holding it exclusively
+	readers map[uintptr]map[int]int // mutex -> task -> read holds
+	pending map[int]string          // task -> mode of the acquisition in progress
+}
+
+func owners(w *World) *lockOwners {
+	lo, _ := w.Ext["lock-owners"].(*lockOwners)
+	if lo == nil {
+		lo = &lockOwners{writer: map[uintptr]int{}, readers: map[uintptr]map[int]int{}, pending: map[int]string{}}
+		w.Ext["lock-owners"] = lo
+	}
+	return lo
+}
+
+func AwaitLock(mu interface{}, mode string) {
+	w, t := underSched()
+	if t == nil || t.dying {
+		return
+	}
+	lo, p := owners(w), PtrOf(mu)
+	free := func() bool {
+		if wr, ok := lo.writer[p]; ok && wr != t.ID {
+			return false
+		}
+		if mode == "Lock" {
+			for r, n := range lo.readers[p] {
+				if r != t.ID && n > 0 {
+					return false
+				}
+			}
+		}
+		return true
+	}
+	if !free() {
+		w.Probes["mutex-contended"]++
+		Block("mutex:"+mode, free)
+	}
+	lo.pending[t.ID] = mode
+}
+
+func noteLocked(mu interface{}) {
+	w, t := underSched()
+	if t == nil {
+		return
+	}
+	lo, p := owners(w), PtrOf(mu)
+	if lo.pending[t.ID] == "RLock" {
+		if lo.readers[p] == nil {
+			lo.readers[p] = map[int]int{}
+		}
+		lo.readers[p][t.ID]++
+	} else {
+		lo.writer[p] = t.ID
+	}
+	delete(lo.pending, t.ID)
+}
+
+func noteUnlocked(mu interface{}) {
+	w, t := underSched()
+	if t == nil {
+		return
+	}
+	lo, p := owners(w), PtrOf(mu)
+	if wr, ok := lo.writer[p]; ok && wr == t.ID {
+		delete(lo.writer, p)
+	} else if lo.readers[p][t.ID] > 0 {
+		lo.readers[p][t.ID]--
+	} else {
+		// unlocked by another task than the one that locked it (legal for sync.Mutex): release whatever is held
+		delete(lo.writer, p)
+	}
+}
+
 // Lock / Unlock maintain the lockset of the current task (called around real sync calls).
 func Lock(mu interface{}) {
+	noteLocked(mu)
 	if !Tracking {
 		return
 	}
@@ -216,6 +297,7 @@ func Lock(mu interface{}) {
 }
 
 func Unlock(mu interface{}) {
+	noteUnlocked(mu)
 	if !Tracking {
 		return
 	}
